@@ -352,12 +352,15 @@ _CLI_RULES = {
     "C03": "area cli: `stim analyze_errors` (flag matrix) whose printed model is parsed back and judged the same way",
     "C10": "area cli: `stim analyze_errors --decompose_errors` (with the two decomposition flags) judged the same way",
     "C18": "area cli: `stim explain_errors` (--dem_filter, --single): text equals the library's explanation",
-    "C11": "area amps: tableau_to_unitary (random tableaus and circuit tableaus, 1..4 qubits, both endiannesses, 3 word widths), unitary_to_tableau of those matrices times a global phase w^j (exact equality with the tableau), "
+    "C11": "row accessors (inverse_x/y/z_output with and without signs, y_output, eval_y_obs), from_pauli_string / to_pauli_string / is_pauli_product / prepend_pauli_product, expand; area amps: tableau_to_unitary (random tableaus and circuit tableaus, 1..4 qubits, both endiannesses, 3 word widths), unitary_to_tableau of those matrices times a global phase w^j (exact equality with the tableau), "
            "circuit_to_output_state_vector (1..5 qubits), stabilizer_state_vector_to_circuit (either endianness, global phase), TableauSimulator::to_state_vector after circuits with measurements and feedback (all 4^n Pauli expectations), "
            "amplitudes canonicalised to directions w^j and judged exactly by the Lean amplitude model",
     "C20": "area xorvec: stim/mem/sparse_xor_vec.h (xor_merge_sort, xor_sorted_items with stack and heap temp buffers, operator^ / ^=, xor_item sequences, inplace_xor_sort on unsorted lists with repeats, "
            "is_subset_of_sorted / is_superset_of) on lists of 0..90 items with many common items against the Lean model Stim.XorVec (equality)",
     "C06": "area reftree: random ReferenceSampleTree values (nesting <= 3, repetitions 0..5, empty prefixes, copied siblings) — simplified() structure, decompress_into, size, empty, operator[] (simplified trees), try_factorize against Model/RefTree (equality)",
+    "C01": "API operations after each circuit (one word width per case): postselect_observable on random signed Pauli products, postselect_x/y/z, measure_pauli_string, measure_kickback_z, canonical_stabilizers — "
+           "the record extended by the virtual post-selected results must be possible for circuit ; MPP … ; M all in the tableau model; refusals must leave the state unchanged",
+    "C12": "every 10th case: after/before through a random 1-3 qubit tableau on chosen positions (oracle: `tab apply` of the embedded tableau, embedding judged by `tab scatter`), left/right_mul_pauli against the Lean product, from_func, sparse_str",
     "C19": "area cli: `stim gen` (--code/--gen, 6 code/task pairs, noise flags, rounds up to 2^32+1): printed text parses to the generator's circuit, header names "
            "task/rounds/distance, small instances judged by `gencode check`",
 }
